@@ -535,6 +535,66 @@ pub fn run_c01(tier: &str, sink: &Sink) -> (EngA, AOut) {
             }
         });
     }
+    // mixed family: texts with 3-4 alternatives / comparators mixing operator kinds, in every order
+    {
+        let pf = |c: &[Cmp], pre: &str| Partial { c: c.to_vec(), pre: pre.into(), build: String::new() };
+        let n1 = Cmp::N(1);
+        let n0 = Cmp::N(0);
+        let alts: Vec<Alt> = vec![
+            Alt::Set(vec![Simple::P(Op::Caret, pf(&[n1, n0, n0], "a"))]),
+            Alt::Hyphen(pf(&[n0, n1], ""), pf(&[n1, n0, n0], "")),
+            Alt::Set(vec![Simple::P(Op::Bare, pf(&[n1, Cmp::X], ""))]),
+            Alt::Set(vec![Simple::P(Op::Tilde, pf(&[n0, n0, n1], "0.a"))]),
+            Alt::Set(vec![Simple::P(Op::Le, pf(&[n0, n1], ""))]),
+            Alt::Set(vec![Simple::P(Op::Bare, pf(&[n1, n0, n0], "a"))]),
+            Alt::Set(vec![Simple::P(Op::Gt, pf(&[n1, n0, n0], "")), Simple::P(Op::Lt, pf(&[n1, n0, n1], "a"))]),
+            Alt::Set(vec![Simple::P(Op::Ge, pf(&[n0, n0, n0], "a")), Simple::P(Op::Lt, pf(&[n0, n1, n0], ""))]),
+            Alt::Set(vec![Simple::P(Op::Gt, pf(&[n1], "")), Simple::P(Op::Lt, pf(&[n1], ""))]), // unsatisfiable
+            Alt::Set(vec![Simple::P(Op::Eq, pf(&[n0, n1, n0], "")), Simple::Garbage("foo")]),
+            Alt::Hyphen(pf(&[n1, n0, n0], "a"), pf(&[n1, Cmp::X], "")),
+            Alt::Set(vec![Simple::P(Op::TildeGt, pf(&[n1, n1], ""))]),
+        ];
+        let na = alts.len();
+        (0..na).into_par_iter().for_each(|i| {
+            for j in 0..na {
+                for k in 0..na {
+                    e.check_c01(&vec![alts[i].clone(), alts[j].clone(), alts[k].clone()], &[], sink, &c, None);
+                    if e.al.thorough || (i + j + k) % 2 == 0 {
+                        for l in 0..na {
+                            e.check_c01(&vec![alts[i].clone(), alts[j].clone(), alts[k].clone(), alts[l].clone()], &[], sink, &c, None);
+                        }
+                    }
+                }
+            }
+        });
+        let comps: Vec<Simple> = vec![
+            Simple::P(Op::Caret, pf(&[n0, n1, n0], "")),
+            Simple::P(Op::Ge, pf(&[n0, n1, n0], "a")),
+            Simple::P(Op::Lt, pf(&[n1, n0, n0], "a")),
+            Simple::P(Op::Le, pf(&[n1], "")),
+            Simple::P(Op::Bare, pf(&[Cmp::X], "")),
+            Simple::P(Op::Tilde, pf(&[n0, n1], "")),
+            Simple::P(Op::Gt, pf(&[n0, n0, n1], "")),
+            Simple::P(Op::Bare, pf(&[n0, n1, Cmp::X], "")),
+            Simple::P(Op::Ge, pf(&[n0, n1, n1], "0.a")),
+            Simple::Garbage("1.2.3.4"),
+        ];
+        let nc = comps.len();
+        (0..nc).into_par_iter().for_each(|i| {
+            for j in 0..nc {
+                for k in 0..nc {
+                    for l in 0..nc {
+                        let set = vec![comps[i].clone(), comps[j].clone(), comps[k].clone(), comps[l].clone()];
+                        e.check_c01(&vec![Alt::Set(set.clone())], &[], sink, &c, None);
+                        if (i + j) % 3 == 0 {
+                            // two comparators || two comparators
+                            e.check_c01(&vec![Alt::Set(set[..2].to_vec()), Alt::Set(set[2..].to_vec())], &[], sink, &c, None);
+                        }
+                    }
+                }
+            }
+        });
+    }
     // numeric family: multi-digit components and relations between two numbers (9 vs 10, ...)
     {
         let (num, singles, pairs) = numeric_engine(&e);
